@@ -1,4 +1,577 @@
-"""Stand-in for netCDF4-python, backed by the simulator's virtual file system (placeholder)."""
+"""Stand-in for netCDF4-python over SimFS (contract S1-S8 in /verif/DESIGN.md section 3.3).
+
+This is a STUB: a small, deliberately permissive model of the parts of netCDF4-python that
+dimarray/io/nc.py relies on.  It is not netCDF4; verdicts obtained on it are verdicts about nc.py.
+"""
+import numpy as np
+
+from dsim.standin.simfs import FS, FileImage, VarImage, DimImage
+
 __dsim_standin__ = True
-class Dataset(object):
-    pass
+__version__ = "0.0-dsim-standin"
+
+default_fillvals = {"f8": 9.969209968386869e+36, "f4": 9.969209968386869e+36, "i8": -9223372036854775806,
+                    "i4": -2147483647, "i2": -32767, "i1": -127, "u1": 255}
+
+
+def _is_int_like(x):
+    return isinstance(x, (int, np.integer)) and not isinstance(x, (bool, np.bool_))
+
+
+class Dimension(object):
+    def __init__(self, handle, img):
+        self._h, self._img = handle, img
+
+    @property
+    def name(self):
+        return self._img.name
+
+    @property
+    def size(self):
+        return self._img.length
+
+    def __len__(self):
+        return self._img.length
+
+    def isunlimited(self):
+        return self._img.unlimited
+
+    def __repr__(self):
+        return "<stand-in netCDF4.Dimension %s%s size=%d>" % (self.name, " (unlimited)" if self._img.unlimited else "", self._img.length)
+
+
+class _HasAttrs(object):
+    def _attrs(self):
+        raise NotImplementedError
+
+    def setncattr(self, name, value):
+        self._h._check_write("setncattr")
+        self._attrs()[name] = _encode_attr(value)
+        self._h._mutated()
+
+    def setncatts(self, d):
+        for k in d:
+            self.setncattr(k, d[k])
+
+    def getncattr(self, name):
+        self._h._check_open("getncattr")
+        try:
+            return _decode_attr(self._attrs()[name])
+        except KeyError:
+            raise AttributeError("NetCDF: Attribute not found: %s" % name)
+
+    def delncattr(self, name):
+        self._h._check_write("delncattr")
+        if name not in self._attrs():
+            raise AttributeError("NetCDF: Attribute not found: %s" % name)
+        del self._attrs()[name]
+        self._h._mutated()
+
+    def ncattrs(self):
+        self._h._check_open("ncattrs", tick=False)
+        return list(self._attrs().keys())
+
+    def __getattr__(self, name):
+        if name.startswith("_") and name != "_FillValue":
+            raise AttributeError(name)
+        try:
+            attrs = self._attrs()
+        except Exception:
+            raise AttributeError(name)
+        if name in attrs:
+            return _decode_attr(attrs[name])
+        raise AttributeError(name)
+
+
+def _encode_attr(value):
+    if isinstance(value, (bool, np.bool_)):
+        raise TypeError("illegal data type for attribute, must be one of dict_keys(['S1', 'i1', 'u1', 'i2', 'u2', 'i4', 'u4', 'i8', 'u8', 'f4', 'f8']), got b1")
+    if value is None or isinstance(value, dict):
+        raise TypeError("illegal data type for attribute, got O")
+    if isinstance(value, (str, np.str_)):
+        return ("str", str(value))
+    if isinstance(value, bytes):
+        return ("str", value.decode("utf-8", "replace"))
+    arr = np.asarray(value)
+    if arr.dtype.kind in "US":
+        return ("strs", [str(x) for x in arr.ravel().tolist()])
+    if arr.dtype.kind == "O":
+        if arr.size and all(isinstance(x, str) for x in arr.ravel().tolist()):
+            return ("strs", [str(x) for x in arr.ravel().tolist()])
+        raise TypeError("illegal data type for attribute, got O")
+    if arr.dtype.kind == "b":
+        raise TypeError("illegal data type for attribute, got b1")
+    if arr.dtype.kind not in "iuf":
+        raise TypeError("illegal data type for attribute, got %s" % arr.dtype.str)
+    return ("num", np.array(arr, copy=True).ravel())
+
+
+def _decode_attr(enc):
+    kind, v = enc
+    if kind == "str":
+        return v
+    if kind == "strs":
+        return v[0] if len(v) == 1 else list(v)
+    if v.size == 1:
+        return v[0]           # numpy scalar, as netCDF4 returns
+    return np.array(v, copy=True)
+
+
+class Variable(_HasAttrs):
+    def __init__(self, handle, img):
+        object.__setattr__(self, "_h", handle)
+        object.__setattr__(self, "_img", img)
+
+    def _attrs(self):
+        return self._img.attrs
+
+    # ---- description
+    @property
+    def name(self):
+        return self._img.name
+
+    @property
+    def dimensions(self):
+        return tuple(self._img.dims)
+
+    @property
+    def dtype(self):
+        return str if self._img.is_str else self._img.dtype
+
+    @property
+    def shape(self):
+        return tuple(self._h._img.dims[d].length for d in self._img.dims)
+
+    @property
+    def ndim(self):
+        return len(self._img.dims)
+
+    @property
+    def size(self):
+        n = 1
+        for s in self.shape:
+            n *= s
+        return n
+
+    def __len__(self):
+        if not self._img.dims:
+            raise TypeError("len() of unsized object")
+        return self.shape[0]
+
+    def __array__(self, dtype=None, copy=None):
+        out = self[...]
+        return np.asarray(out, dtype=dtype)
+
+    def __repr__(self):
+        return "<stand-in netCDF4.Variable %s%r %s>" % (self.name, self.dimensions, self._img.dtype)
+
+    # ---- storage
+    def _ensure(self):
+        """Bring the stored array to the current shape (unlimited dimensions may have grown)."""
+        img = self._img
+        shape = self.shape
+        if img.data is None:
+            img.data = np.empty(shape, dtype=object if img.is_str else img.dtype)
+            if not img.is_str:
+                img.data[...] = _fill(img)
+            img.missing = np.ones(shape, dtype=bool)
+        elif img.data.shape != shape:
+            new = np.empty(shape, dtype=img.data.dtype)
+            if not img.is_str:
+                new[...] = _fill(img)
+            miss = np.ones(shape, dtype=bool)
+            sl = tuple(slice(0, min(a, b)) for a, b in zip(img.data.shape, shape))
+            new[sl] = img.data[sl]
+            miss[sl] = img.missing[sl]
+            img.data, img.missing = new, miss
+
+    def __getitem__(self, key):
+        self._h._check_open("var[...] read")
+        self._ensure()
+        img = self._img
+        sel, drop = _selectors(key, self.shape, [False] * self.ndim, None)
+        data = _ortho_get(img.data, sel, drop)
+        miss = _ortho_get(img.missing, sel, drop)
+        if img.is_str:
+            if np.ndim(data) == 0:
+                v = data[()] if isinstance(data, np.ndarray) else data
+                return "" if v is None else v
+            out = np.array(data, dtype=object, copy=True)
+            out[np.asarray(miss, dtype=bool)] = ""
+            return out
+        data = np.array(data, copy=True)
+        miss = np.array(miss, dtype=bool, copy=True)
+        if img.fill_value is not None:
+            with np.errstate(invalid="ignore"):
+                miss = miss | (data == img.fill_value)
+        if miss.any():
+            return np.ma.MaskedArray(data, mask=miss)
+        if data.ndim == 0 and sel and all(drop):
+            return data[()]      # element access returns a numpy scalar
+        return data
+
+    def __setitem__(self, key, value):
+        self._h._check_write("var[...] = write")
+        img = self._img
+        himg = self._h._img
+        masked = None
+        if isinstance(value, np.ma.MaskedArray):
+            masked = np.ma.getmaskarray(value)
+            value = value.filled(_fill(img) if not img.is_str else "")
+        value = np.asarray(value, dtype=object) if img.is_str and not isinstance(value, np.ndarray) else np.asarray(value)
+        unlimited = [himg.dims[d].unlimited for d in img.dims]
+        self._ensure()
+        sel, drop = _selectors(key, self.shape, unlimited, value.shape)
+        # growth of unlimited dimensions
+        for i, d in enumerate(img.dims):
+            need = (int(np.max(sel[i])) + 1) if len(sel[i]) else 0
+            if need > himg.dims[d].length:
+                if not unlimited[i]:
+                    raise IndexError("index exceeds dimension bounds")
+                himg.dims[d].length = need
+        self._ensure()
+        target_shape = tuple(len(s) for s in sel)
+        if img.is_str:
+            vals = value.astype(object) if isinstance(value, np.ndarray) else value
+        else:
+            if value.dtype.kind in "OUS":
+                try:
+                    vals = value.astype(img.dtype)
+                except (TypeError, ValueError) as e:
+                    raise TypeError("cannot store %s data in a %s variable: %s" % (value.dtype, img.dtype, e))
+            else:
+                with np.errstate(invalid="ignore"):
+                    vals = value.astype(img.dtype)
+        n = 1
+        for s_ in target_shape:
+            n *= s_
+        if vals.size == n:
+            vals = vals.reshape(target_shape)
+            if masked is not None:
+                masked = np.asarray(masked).reshape(target_shape)
+        else:
+            kept = tuple(s_ for s_, dr in zip(target_shape, drop) if not dr)
+            try:
+                vals = np.broadcast_to(vals, kept).reshape(target_shape)
+            except ValueError:
+                raise ValueError("shape mismatch: cannot assign data of shape %r to a selection of shape %r" % (value.shape, kept))
+            if masked is not None:
+                masked = np.broadcast_to(masked, kept).reshape(target_shape)
+        if n:
+            ix = np.ix_(*sel) if sel else ()
+            img.data[ix] = vals
+            img.missing[ix] = False if masked is None else masked
+        self._h._mutated()
+
+
+def _fill(img):
+    if img.fill_value is not None:
+        return img.fill_value
+    return default_fillvals.get(np.dtype(img.dtype).str[1:], 0)
+
+
+def _top_level(key):
+    if isinstance(key, tuple):
+        return list(key)
+    if isinstance(key, np.ndarray):
+        return [key]
+    if isinstance(key, list):
+        if all(_is_int_like(x) or isinstance(x, (bool, np.bool_)) for x in key):
+            return [key]                       # a sequence of integers addresses the first dimension
+        return list(key)                       # any other iterable is the per-dimension tuple
+    return [key]
+
+
+def _selectors(key, shape, unlimited, value_shape):
+    """Per-dimension integer position arrays (orthogonal indexing) and which dimensions an int index drops."""
+    elems = _top_level(key)
+    ndim = len(shape)
+    n_ell = sum(1 for e in elems if e is Ellipsis)
+    if n_ell > 1:
+        raise IndexError("an index can only have a single ellipsis")
+    if n_ell:
+        i = [j for j, e in enumerate(elems) if e is Ellipsis][0]
+        elems = elems[:i] + [slice(None)] * (ndim - (len(elems) - 1)) + elems[i + 1:]
+    if len(elems) > ndim:
+        raise IndexError("too many indices for a %d-dimensional variable" % ndim)
+    elems = elems + [slice(None)] * (ndim - len(elems))
+    # which entry of the value's shape belongs to which kept dimension (only when ranks agree)
+    kept_pos = {}
+    k = 0
+    for i, e in enumerate(elems):
+        if not (_is_int_like(e) or (isinstance(e, np.ndarray) and e.ndim == 0 and e.dtype.kind in "iu")):
+            kept_pos[i] = k
+            k += 1
+    datashape = value_shape if (value_shape is not None and len(value_shape) == k) else None
+    sel, drop = [], []
+    for i, e in enumerate(elems):
+        n = shape[i]
+        if isinstance(e, np.ndarray) and e.ndim == 0 and e.dtype.kind in "iu":
+            e = int(e)
+        if _is_int_like(e):
+            p = int(e)
+            if p < 0:
+                p += n
+            if p < 0 or (p >= n and not (unlimited[i] and value_shape is not None)):
+                raise IndexError("index %d out of range for dimension of length %d" % (int(e), n))
+            sel.append(np.array([p], dtype=int))
+            drop.append(True)
+            continue
+        drop.append(False)
+        if isinstance(e, slice):
+            if unlimited[i] and value_shape is not None and e.stop is None and (e.step is None or e.step > 0) and datashape is not None:
+                start = 0 if e.start is None else (e.start + n if e.start < 0 else e.start)
+                step = 1 if e.step is None else e.step
+                cnt = datashape[kept_pos[i]]
+                sel.append(start + step * np.arange(cnt, dtype=int))
+            elif unlimited[i] and value_shape is not None and e.stop is not None and e.stop > n and (e.step is None or e.step > 0):
+                start = 0 if e.start is None else e.start
+                sel.append(np.arange(start, e.stop, 1 if e.step is None else e.step, dtype=int))
+            else:
+                sel.append(np.arange(*e.indices(n), dtype=int))
+            continue
+        arr = np.asarray(e)
+        if arr.ndim != 1:
+            raise IndexError("only integers, slices, ellipsis and 1-D integer or boolean sequences are valid indices (got %r)" % (e,))
+        if arr.dtype.kind == "b":
+            if arr.size != n:
+                raise IndexError("boolean index of length %d for a dimension of length %d" % (arr.size, n))
+            sel.append(np.nonzero(arr)[0].astype(int))
+            continue
+        if arr.size == 0:
+            sel.append(np.array([], dtype=int))
+            continue
+        if arr.dtype.kind not in "iu":
+            raise IndexError("only integers, slices, ellipsis and 1-D integer or boolean sequences are valid indices (got %r)" % (e,))
+        pos = arr.astype(int)
+        pos = np.where(pos < 0, pos + n, pos)
+        if (pos < 0).any() or ((pos >= n).any() and not (unlimited[i] and value_shape is not None)):
+            raise IndexError("index out of range for dimension of length %d" % n)
+        sel.append(pos)
+    return sel, drop
+
+
+def _ortho_get(data, sel, drop):
+    if not sel:
+        return data[()] if data.ndim == 0 else data
+    out = data[np.ix_(*sel)]
+    idx = tuple(0 if d else slice(None) for d in drop)
+    return out[idx]
+
+
+class _VarMap(object):
+    """ds.variables: ordered name -> Variable mapping (deletion is refused, as on a real file)."""
+
+    def __init__(self, handle):
+        self._h = handle
+
+    def keys(self):
+        return list(self._h._img.vars.keys())
+
+    def __iter__(self):
+        return iter(self.keys())
+
+    def __contains__(self, name):
+        return name in self._h._img.vars
+
+    def __len__(self):
+        return len(self._h._img.vars)
+
+    def __getitem__(self, name):
+        return Variable(self._h, self._h._img.vars[name])
+
+    def values(self):
+        return [self[k] for k in self.keys()]
+
+    def items(self):
+        return [(k, self[k]) for k in self.keys()]
+
+    def get(self, name, default=None):
+        return self[name] if name in self else default
+
+    def __delitem__(self, name):
+        raise RuntimeError("NetCDF: variables cannot be deleted from a file")
+
+
+class _DimMap(_VarMap):
+    def keys(self):
+        return list(self._h._img.dims.keys())
+
+    def __contains__(self, name):
+        return name in self._h._img.dims
+
+    def __len__(self):
+        return len(self._h._img.dims)
+
+    def __getitem__(self, name):
+        return Dimension(self._h, self._h._img.dims[name])
+
+
+class Dataset(_HasAttrs):
+    def __init__(self, filename, mode="r", clobber=True, format="NETCDF4", diskless=False, persist=False, **kwargs):
+        object.__setattr__(self, "_closed", True)
+        object.__setattr__(self, "_path", filename)
+        object.__setattr__(self, "_h", self)
+        if not isinstance(filename, str):
+            raise TypeError("filename must be a str")
+        FS.tick("open:" + mode)
+        if mode in ("r", "a", "r+"):
+            if not FS.exists(filename):
+                raise FileNotFoundError(2, "No such file or directory", filename)
+            img = FS.files[filename]
+        elif mode == "w":
+            if FS.exists(filename) and not clobber:
+                raise OSError("NetCDF: File exists && NC_NOCLOBBER: %r" % filename)
+            if format not in ("NETCDF4", "NETCDF4_CLASSIC", "NETCDF3_CLASSIC", "NETCDF3_64BIT", "NETCDF3_64BIT_OFFSET", "NETCDF3_64BIT_DATA"):
+                raise ValueError("unknown format %r" % (format,))
+            img = FileImage(format)
+            FS.files[filename] = img
+            FS.history.pop(filename, None)
+            FS.synced.pop(filename, None)
+        else:
+            raise ValueError("mode must be one of 'r', 'w', 'a', 'r+', got %r" % (mode,))
+        object.__setattr__(self, "_img", img)
+        object.__setattr__(self, "_mode", mode)
+        object.__setattr__(self, "_closed", False)
+        object.__setattr__(self, "variables", _VarMap(self))
+        object.__setattr__(self, "dimensions", _DimMap(self))
+        FS.handles.append(self)
+        if mode == "w":
+            self._mutated()
+
+    # ---- life cycle
+    def _attrs(self):
+        return self._img.attrs
+
+    def _check_open(self, what, tick=True):
+        if tick:
+            FS.tick(what)
+        if self._closed:
+            raise RuntimeError("NetCDF: Not a valid ID (handle is closed)")
+
+    def _check_write(self, what):
+        self._check_open(what)
+        if self._mode == "r":
+            raise RuntimeError("NetCDF: Write to read only")
+
+    def _mutated(self):
+        self._img.version += 1
+        if FS.files.get(self._path) is self._img:
+            FS.mutated(self._path)
+
+    @property
+    def file_format(self):
+        return self._img.format
+
+    @property
+    def data_model(self):
+        return self._img.format
+
+    def isopen(self):
+        return not self._closed
+
+    def filepath(self):
+        return self._path
+
+    def sync(self):
+        self._check_open("sync")
+        if FS.files.get(self._path) is self._img:
+            FS.sync(self._path)
+
+    def close(self):
+        self._check_open("close")
+        object.__setattr__(self, "_closed", True)
+        if FS.files.get(self._path) is self._img:
+            FS.sync(self._path)
+
+    def __enter__(self):
+        return self
+
+    def __exit__(self, *exc):
+        self.close()
+
+    def __repr__(self):
+        return "<stand-in netCDF4.Dataset %r mode=%s %s>" % (self._path, self._mode, "closed" if self._closed else "open")
+
+    # ---- definitions
+    def createDimension(self, name, size=None):
+        self._check_write("createDimension")
+        if not isinstance(name, str) or not name:
+            raise ValueError("dimension name must be a non-empty str")
+        if name in self._img.dims:
+            raise RuntimeError("NetCDF: String match to name in use: %s" % name)
+        if size is not None and (not _is_int_like(size) or size < 0):
+            raise ValueError("dimension size must be a non-negative int or None")
+        if size is None and self._img.format.startswith("NETCDF3") and any(d.unlimited for d in self._img.dims.values()):
+            raise RuntimeError("NetCDF: NC_UNLIMITED size already in use")
+        self._img.dims[name] = DimImage(name, size)
+        self._mutated()
+        return Dimension(self, self._img.dims[name])
+
+    def createVariable(self, varname, datatype, dimensions=(), zlib=False, complevel=4, shuffle=True, fletcher32=False,
+                       contiguous=False, chunksizes=None, endian="native", least_significant_digit=None, fill_value=None,
+                       **kwargs):
+        self._check_write("createVariable")
+        if not isinstance(varname, str) or not varname:
+            raise ValueError("variable name must be a non-empty str")
+        if varname in self._img.vars:
+            raise RuntimeError("NetCDF: String match to name in use: %s" % varname)
+        if isinstance(dimensions, str):
+            dimensions = (dimensions,)
+        dimensions = tuple(d.name if isinstance(d, Dimension) else d for d in dimensions)
+        for d in dimensions:
+            if d not in self._img.dims:
+                raise KeyError("NetCDF: dimension %r is not defined" % (d,))
+        is_str = False
+        if datatype is str:
+            is_str = True
+            dt = None
+        else:
+            dt = np.dtype(datatype)
+            if dt.kind == "U" or (dt.kind == "S" and dt.itemsize > 1) or dt.kind == "O":
+                if dt.kind == "O":
+                    raise TypeError("illegal primitive data type, must be one of ..., got O")
+                is_str, dt = True, None
+            elif dt.kind == "S":
+                is_str, dt = True, None
+            elif dt.kind == "b":
+                raise TypeError("illegal primitive data type, must be one of ..., got bool")
+            elif dt.kind not in "iuf":
+                raise TypeError("illegal primitive data type, got %s" % dt)
+        if self._img.format.startswith("NETCDF3") or self._img.format == "NETCDF4_CLASSIC":
+            if is_str:
+                raise RuntimeError("NetCDF: Attempting netcdf-4 operation on strict nc3 netcdf-4 file (variable-length strings)")
+            if dt.kind == "u" or dt.itemsize == 8 and dt.kind == "i":
+                raise RuntimeError("NetCDF: Invalid type for format %s: %s" % (self._img.format, dt))
+        if fill_value is not None and not is_str:
+            fill_value = np.asarray(fill_value).astype(dt)[()]
+        img = VarImage(varname, dt, dimensions, is_str, None if is_str else fill_value)
+        if fill_value is not None and not is_str:
+            img.attrs["_FillValue"] = ("num", np.array([fill_value]))
+        self._img.vars[varname] = img
+        self._mutated()
+        return Variable(self, img)
+
+    def renameDimension(self, old, new):
+        self._check_write("renameDimension")
+        if old not in self._img.dims or new in self._img.dims:
+            raise RuntimeError("NetCDF: cannot rename dimension %r to %r" % (old, new))
+        self._img.dims = {(new if k == old else k): v for k, v in self._img.dims.items()}
+        self._img.dims[new].name = new
+        for v in self._img.vars.values():
+            v.dims = tuple(new if d == old else d for d in v.dims)
+        self._mutated()
+
+    def renameVariable(self, old, new):
+        self._check_write("renameVariable")
+        if old not in self._img.vars or new in self._img.vars:
+            raise RuntimeError("NetCDF: cannot rename variable %r to %r" % (old, new))
+        self._img.vars = {(new if k == old else k): v for k, v in self._img.vars.items()}
+        self._img.vars[new].name = new
+        self._mutated()
+
+    def __setattr__(self, name, value):
+        if name.startswith("_"):
+            object.__setattr__(self, name, value)
+        else:
+            self.setncattr(name, value)
